@@ -81,8 +81,8 @@ def PcOK (c : Cfg) (o : Orders) (s : State) (t : Nat) : Prop :=
   match s.pc t with
   | .idle => True
   | .cr0 => c.tls = true → s.tslot t = none
-  | .en0 i _ => s.own i = .held t
-  | .en1 i seen _ => s.own i = .held t ∧ seen < c.need i
+  | .en0 i k => s.own i = .held t ∧ (k = .kCreate → c.tls = false)
+  | .en1 i seen k => s.own i = .held t ∧ seen < c.need i ∧ (k = .kCreate → c.tls = false)
   | .lk0 i => s.own i = .held t ∧ (c.tls = true → CapOK c s (s.cur t) i)
   | .lk1 i => s.own i = .held t ∧ s.lt i = 1 ∧ s.fv i = none ∧ CapOK c s (s.cur t) i
   | .lk2 i v => s.own i = .held t ∧ s.lt i = 1 ∧ s.fv i = none ∧ CapOK c s (s.cur t) i ∧
@@ -118,7 +118,7 @@ structure Inv (c : Cfg) (o : Orders) (s : State) : Prop where
       i < msg.view.get c.cnt ∧ s.lt i = 0 ∧ s.fv i = none
   unalloc : ∀ i, s.own i = .unalloc ↔ s.mem.len c.cnt ≤ i + 1
   unalloc2 : ∀ i, s.own i = .unalloc → s.lt i = 0 ∧ s.fv i = none ∧ ∀ l, (s.av i).get l = 0
-  tslotOK : ∀ t i, s.tslot t = some i → s.own i = .held t
+  tslotOK : ∀ t i, s.tslot t = some i → c.tls = true ∧ s.own i = .held t
   closed : ∀ i, s.fv i = none → (∀ t, (s.pc t).lk3At i = false) →
       (∃ msg, (s.mem.hist (.slot i))[s.mem.len (.slot i) - 1]? = some msg ∧ msg.val = MAX) ∧
       (s.av i).get (.slot i) + 1 = s.mem.len (.slot i)
